@@ -1052,6 +1052,269 @@ def run_programs(chk, tier):
     chk.extra["programs_run"] = nprog
 
 
+# ----------------------------------------------------------------------------------------------
+# multi-package programs (tie b2): unexported methods of another package, interfaces embedding foreign interfaces
+# ----------------------------------------------------------------------------------------------
+
+def gen_mp_program(rng, idx):
+    """2-3 packages (GOPATH mode): package q declares interfaces with UNEXPORTED methods and types implementing them; main
+    (and optionally r) declare look-alike types (same unexported name, other package), named and literal interfaces that EMBED
+    q's interfaces, structs embedding q's structs (promoted unexported methods). Probes: assertions and type switches in both
+    packages, calls through q, identity of unnamed composites over `interface{ q.Inner }` across packages.
+    By construction no selector is ambiguous and no type has two methods of the same bare name, so every line must agree
+    with native Go."""
+    mod = "gvmp%d" % idx
+    u1 = rng.choice(["m", "n", "mm", "do"])
+    u2 = rng.choice([x for x in ["k", "nn", "get"] if x != u1])
+    with_r = rng.random() < 0.5
+    two = rng.random() < 0.5            # Inner has two unexported methods
+    inner_ms = [u1] + ([u2] if two else [])
+    q = ["package q", ""]
+    q.append("type Inner interface { %s }" % "; ".join("%s() int" % m for m in inner_ms))
+    q.append("type Inner2 interface { Inner; X() int }")
+    def meths(recv, tname, base, names, extra=()):
+        out = []
+        for k, m in enumerate(names):
+            out.append("func (t %s%s) %s() int { return %d + t.c }" % (recv, tname, m, base + 10 * k))
+        for k, m in enumerate(extra):
+            out.append("func (t %s%s) %s() int { return %d + t.c }" % (recv, tname, m, base + 100 + 10 * k))
+        return out
+    q.append("type T struct{ c int }")
+    q += meths("", "T", 1000, inner_ms, ["X"] if rng.random() < 0.5 else [])
+    t_has_x = q[-1].find(") X()") >= 0
+    q.append("type P struct{ c int }")
+    q += meths("*", "P", 2000, inner_ms, ["X"])
+    q.append("type W struct{ T }")
+    q.append("type Half struct{ c int }")            # implements only part of Inner when Inner has two methods
+    q += meths("", "Half", 3000, inner_ms[:1])
+    q.append("func NewT(c int) interface{} { return T{c} }")
+    q.append("func NewP(c int) interface{} { return &P{c} }")
+    q.append("func NewW(c int) interface{} { return W{T{c}} }")
+    q.append("func NewHalf(c int) interface{} { return Half{c} }")
+    q.append("func IsInner(v interface{}) bool { _, ok := v.(Inner); return ok }")
+    q.append("func IsInner2(v interface{}) bool { _, ok := v.(Inner2); return ok }")
+    q.append("func IsLit(v interface{}) bool { _, ok := v.(interface{ Inner }); return ok }")
+    q.append("func Call(v interface{}) int { if x, ok := v.(Inner); ok { return x.%s() }; return -1 }" % u1)
+    q.append("func Which(v interface{}) string { switch v.(type) { case Inner2: return \"Inner2\"; case Inner: return \"Inner\" }; return \"none\" }")
+    q.append("func Slice() interface{} { return []interface{ Inner }{} }")
+    q.append("func IsSlice(v interface{}) bool { _, ok := v.([]interface{ Inner }); return ok }")
+    q.append("func MapV() interface{} { return map[string]interface{ Inner }{} }")
+    q.append("func IsMap(v interface{}) bool { _, ok := v.(map[string]interface{ Inner }); return ok }")
+    q.append("func FuncV() interface{} { return func(interface{ Inner }) int { return 1 } }")
+    q.append("func IsFunc(v interface{}) bool { _, ok := v.(func(interface{ Inner }) int); return ok }")
+    q.append("func Slice2() interface{} { return []interface{ Inner; X() int }{} }")
+    files = {"q/q.go": "\n".join(q) + "\n"}
+    imp = ['"%s/q"' % mod]
+    if with_r:
+        r = ["package r", "", 'import "%s/q"' % mod, ""]
+        r.append("type Mid interface { q.Inner }")
+        r.append("type RL struct{ c int }")
+        r += meths("", "RL", 5000, inner_ms)          # r's own methods of the same names
+        r.append("type RE struct{ q.T }")
+        r.append("func NewRL(c int) interface{} { return RL{c} }")
+        r.append("func NewRE(c int) interface{} { return RE{q.T{}} }")
+        r.append("func IsMid(v interface{}) bool { _, ok := v.(Mid); return ok }")
+        r.append("func IsLit(v interface{}) bool { _, ok := v.(interface{ q.Inner }); return ok }")
+        r.append("func Slice() interface{} { return []interface{ q.Inner }{} }")
+        r.append("func IsOwn(v interface{}) bool { _, ok := v.(interface{ %s }); return ok }" % "; ".join("%s() int" % m for m in inner_ms))
+        files["r/r.go"] = "\n".join(r) + "\n"
+        imp.append('"%s/r"' % mod)
+    m = ["package main", "", "import (", "\t" + "\n\t".join(imp), ")", ""]
+    m.append("type Outer interface { q.Inner }")
+    m.append("type Outer2 interface { q.Inner; Foo() int }")
+    m.append("type Outer3 interface { q.Inner2 }")
+    m.append("type MI interface { %s }" % "; ".join("%s() int" % x for x in inner_ms))     # main's own unexported methods
+    m.append("type L struct{ c int }")
+    m += meths("", "L", 7000, inner_ms)
+    m.append("type LF struct{ c int }")
+    m += meths("", "LF", 7500, inner_ms, ["Foo", "X"])
+    m.append("type E struct{ q.T }")
+    m.append("type EF struct{ q.T }")
+    m.append("func (e EF) Foo() int { return 8000 }")
+    m.append("type EP struct{ *q.P }")
+    m.append("type EW struct{ q.W; c int }")
+    m.append("func (e EW) Foo() int { return 8100 }")
+    vals = [("q.T", "q.NewT(1)"), ("*q.P", "q.NewP(2)"), ("q.W", "q.NewW(3)"), ("q.Half", "q.NewHalf(4)"),
+            ("L", "L{5}"), ("LF", "LF{6}"), ("*L", "&L{7}"), ("E", "E{}"), ("*E", "&E{}"), ("EF", "EF{}"),
+            ("EP", "EP{&q.P{}}"), ("EW", "EW{}"), ("int", "42"), ("nil", "nil")]
+    if with_r:
+        vals += [("r.RL", "r.NewRL(8)"), ("r.RE", "r.NewRE(9)")]
+    rng.shuffle(vals)
+    m.append("")
+    m.append("func b(x bool) int { if x { return 1 }; return 0 }")
+    m.append("func probe(label string, v interface{}) {")
+    probes = [("Outer", "v.(Outer)"), ("Outer2", "v.(Outer2)"), ("Outer3", "v.(Outer3)"), ("lit", "v.(interface{ q.Inner })"),
+              ("litF", "v.(interface{ q.Inner; Foo() int })"), ("lit2", "v.(interface{ q.Inner2 })"),
+              ("q.Inner", "v.(q.Inner)"), ("q.Inner2", "v.(q.Inner2)"), ("MI", "v.(MI)"),
+              ("ownlit", "v.(interface{ %s })" % "; ".join("%s() int" % x for x in inner_ms))]
+    if with_r:
+        probes += [("r.Mid", "v.(r.Mid)")]
+    rng.shuffle(probes)
+    for name, expr in probes:
+        m.append("\t{ _, ok := %s; println(label, \"%s\", ok) }" % (expr, name))
+    m.append("\tprintln(label, \"q.IsInner\", q.IsInner(v), q.IsInner2(v), q.IsLit(v), q.Which(v), q.Call(v))")
+    if with_r:
+        m.append("\tprintln(label, \"r\", r.IsMid(v), r.IsLit(v), r.IsOwn(v))")
+    cases = [("Outer2", "Outer2"), ("Outer", "Outer"), ("MI", "MI"), ("q.Inner", "q.Inner")]
+    rng.shuffle(cases)
+    m.append("\tswitch v.(type) {")
+    for c, t in cases:
+        m.append("\tcase %s: println(label, \"switch\", \"%s\")" % (t, c))
+    m.append("\tdefault: println(label, \"switch\", \"default\")")
+    m.append("\t}")
+    m.append("\tif o, ok := v.(Outer2); ok { println(label, \"call\", o.Foo(), q.Call(o)) }")
+    m.append("\tif o, ok := v.(Outer3); ok { println(label, \"callX\", o.X(), q.Call(o)) }")
+    m.append("}")
+    m.append("")
+    m.append("func main() {")
+    for lab, ex in vals:
+        m.append("\tprobe(\"%s\", %s)" % (lab, ex))
+    ident = [
+        ("slice-q-in-main", "q.IsSlice([]interface{ q.Inner }{})"),
+        ("slice-main-of-q", "func() bool { _, ok := q.Slice().([]interface{ q.Inner }); return ok }()"),
+        ("slice-own-vs-q", "q.IsSlice([]interface{ %s }{})" % "; ".join("%s() int" % x for x in inner_ms)),
+        ("slice-named-vs-lit", "q.IsSlice([]Outer{})"),
+        ("slice-qInner-named", "q.IsSlice([]q.Inner{})"),
+        ("map", "q.IsMap(map[string]interface{ q.Inner }{})"),
+        ("map-main-of-q", "func() bool { _, ok := q.MapV().(map[string]interface{ q.Inner }); return ok }()"),
+        ("func", "q.IsFunc(func(interface{ q.Inner }) int { return 0 })"),
+        ("func-main-of-q", "func() bool { _, ok := q.FuncV().(func(interface{ q.Inner }) int); return ok }()"),
+        ("slice2", "func() bool { _, ok := q.Slice2().([]interface{ q.Inner; X() int }); return ok }()"),
+        ("slice2-vs-Inner2lit", "func() bool { _, ok := q.Slice2().([]interface{ q.Inner2 }); return ok }()"),
+        ("eq-iface", "interface{}(q.NewT(1)) == interface{}(q.NewT(1))"),
+    ]
+    if with_r:
+        ident += [("slice-r-vs-q", "q.IsSlice(r.Slice())"),
+                  ("slice-r-in-main", "func() bool { _, ok := r.Slice().([]interface{ q.Inner }); return ok }()")]
+    rng.shuffle(ident)
+    for lab, ex in ident:
+        m.append("\tprintln(\"ident\", \"%s\", %s)" % (lab, ex))
+    m.append("}")
+    files["main.go"] = "\n".join(m) + "\n"
+    return mod, files
+
+
+_RX_BLOCK = re.compile(r'(?m)^\$packages\["([^"]+)"\] = \(function\(\) \{')
+_RX_ENTRY = re.compile(r'\{prop: "([^"]*)", name: "([^"]*)", pkg: "([^"]*)", typ: ')
+_RX_PTRVAR = re.compile(r'(?m)^\t+([\w$]+) = \$ptrType\((\w+)\);')
+_RX_METHODS = re.compile(r'(?m)^\t+([\w$]+)\.methods = \[(.*)\];$')
+_RX_IFACE_INIT = re.compile(r'(?m)^\t+(\w+)\.init\(\[(\{prop: .*|)\]\);$')
+_RX_IFACE_LIT = re.compile(r'(?m)^\t+[\w$]+ = \$interfaceType\(\[(.*)\]\);$')
+
+
+def check_method_tables(chk, job_id, js, facts):
+    """Emission pin: every entry of every `.methods = [...]`, named-interface `.init([...])` and `$interfaceType([...])` of
+    the user's packages carries the declaring package of an unexported method, as go/types (run independently in gvh_c09)
+    determines it."""
+    locs = list(_RX_BLOCK.finditer(js))
+    blocks = {}
+    for i, mt in enumerate(locs):
+        end = locs[i + 1].start() if i + 1 < len(locs) else len(js)
+        blocks[mt.group(1)] = js[mt.start():end]
+
+    def entries(txt):
+        return sorted((mm.group(2), mm.group(3)) for mm in _RX_ENTRY.finditer(txt))
+
+    for pf in facts:
+        blk = blocks.get(pf["path"])
+        if blk is None and pf["name"] == "main":
+            cands = [k for k in blocks if k == pf["path"] or k in (".", "main")]
+            blk = blocks.get(cands[0]) if cands else None
+        if blk is None:
+            chk.add_tie_break("emission-method-tables", "%s package %s" % (job_id, pf["path"]), "package block not found", "present")
+            continue
+        ptrvars = {mm.group(1): mm.group(2) for mm in _RX_PTRVAR.finditer(blk)}
+        seen_named = 0
+        for mm in _RX_METHODS.finditer(blk):
+            var, txt = mm.group(1), mm.group(2)
+            base = re.sub(r"\$\d+$", "", var)
+            if var in ptrvars:
+                exp = pf["pointer"].get(ptrvars[var])
+                what = "*%s" % ptrvars[var]
+            else:
+                exp = pf["value"].get(base)
+                what = base
+            if exp is None:
+                continue
+            seen_named += 1
+            got = entries(txt)
+            chk.add_case("emission-method-tables", "%s %s %s" % (job_id, pf["path"], what), kindkey="emission-methods-entry", nontrivial=False)
+            if got != sorted(tuple(e) for e in exp):
+                chk.add_tie_break("emission-method-tables", "%s: %s.%s.methods" % (job_id, pf["path"], what), str(got), str(sorted(tuple(e) for e in exp)))
+        for mm in _RX_IFACE_INIT.finditer(blk):
+            name, txt = mm.group(1), mm.group(2)
+            exp = pf["ifaces"].get(name)
+            if exp is None:
+                continue
+            got = entries(txt)
+            chk.add_case("emission-method-tables", "%s %s iface %s" % (job_id, pf["path"], name), kindkey="emission-iface-entry", nontrivial=False)
+            if got != sorted(tuple(e) for e in exp):
+                chk.add_tie_break("emission-method-tables", "%s: %s.%s.init" % (job_id, pf["path"], name), str(got), str(sorted(tuple(e) for e in exp)))
+        lits = set(tuple(sorted(tuple(e) for e in l)) for l in (pf["literals"] or []))
+        # interface literals may also print as named interfaces' method sets (identical lists): accept those too
+        lits |= set(tuple(sorted(tuple(e) for e in l)) for l in pf["ifaces"].values())
+        for mm in _RX_IFACE_LIT.finditer(blk):
+            got = tuple(entries(mm.group(1)))
+            if not got:
+                continue
+            chk.add_case("emission-method-tables", "%s %s literal" % (job_id, pf["path"]), kindkey="emission-literal-entry", nontrivial=False)
+            if got not in lits:
+                chk.add_tie_break("emission-method-tables", "%s: %s $interfaceType(%s)" % (job_id, pf["path"], list(got)),
+                                  "not an interface type of this package per go/types", str(sorted(lits))[:600])
+
+
+def run_mp_programs(chk, tier):
+    from . import progs
+    q = tier != "thorough"
+    n = 14 if q else 160
+    C.build_gvh("gvh_c09")
+    gopath = C.scratch("c09gopath")
+    try:
+        jobs, metas = [], []
+        for i in range(n):
+            mod, files = gen_mp_program(chk.rng, i)
+            jobs.append({"id": "mp%d" % i, "mod": mod, "files": files, "variants": ["plain"] if (q or i % 4) else ["plain", "minify"],
+                         "native": True, "timeout": 300, "keep_js": True})
+            metas.append(files)
+        p = C.run_gvh(["prog", "-j", "8"], [json.dumps(j) for j in jobs], name="gvh_c09", timeout=7200,
+                      extra_env={"GOPATH": gopath, "GO111MODULE": "off", "GOFLAGS": ""})
+        if p.returncode != 0:
+            raise RuntimeError("gvh_c09 prog failed: " + p.stderr[-3000:])
+        res = [json.loads(l) for l in p.stdout.split("\n") if l.strip()]
+        if len(res) != len(jobs):
+            raise RuntimeError("gvh_c09 answered %d results for %d jobs" % (len(res), len(jobs)))
+    finally:
+        import shutil
+        shutil.rmtree(gopath, ignore_errors=True)
+    nprog = 0
+    for job, r, files in zip(jobs, res, metas):
+        if r.get("fact_err"):
+            raise RuntimeError("go/types rejected a generated multi-package program: %s\n%s" % (r["fact_err"], files["main.go"][:2000]))
+        nat = progs.observe_native(r["runs"]["native"])
+        if nat[1] != "exit0":
+            raise RuntimeError("generated multi-package program does not build/run natively: %s\n%s\n%s" % (
+                nat[1], files["q/q.go"][:1500], files["main.go"][:2500]))
+        for v in job["variants"]:
+            run = r["runs"][v]
+            js = progs.observe_js(run)
+            nprog += 1
+            same = js == nat
+            chk.add_case("programs-multipkg", job["id"] + v + files["main.go"] + files["q/q.go"], nontrivial=True,
+                         kindkey="program-multipkg:%s" % ("same" if same else "differs"),
+                         sample={"tie": "programs-multipkg", "op": job["id"], "impl": "\n".join(js[0][:5]), "model": "(native Go) " + "\n".join(nat[0][:5])})
+            chk.evaluations += len(nat[0])
+            if not same:
+                if js[1] != nat[1] or len(js[0]) != len(nat[0]):
+                    desc = "ending js=%s native=%s lines js=%d native=%d" % (js[1], nat[1], len(js[0]), len(nat[0]))
+                else:
+                    desc = "; ".join("js[%s] go[%s]" % d for d in [(a, b) for a, b in zip(js[0], nat[0]) if a != b][:6])
+                chk.add_mismatch("programs-multipkg", json.dumps({"id": job["id"], "variant": v, "files": files}),
+                                 impl=desc, spec="native Go output", signature=None)
+            if v == "plain" and run.get("js"):
+                check_method_tables(chk, job["id"], run["js"], r["facts"])
+    chk.extra["multipkg_programs_run"] = nprog
+
+
 def gen_all_families(rng, tier):
     q = tier != "thorough"
     fams = []
@@ -1097,6 +1360,7 @@ def run(tier, seed):
     run_families(chk, fams, "prelude-types")
     check_emission(chk)
     run_programs(chk, tier)
+    run_mp_programs(chk, tier)
     return chk.finish()
 
 
